@@ -355,6 +355,17 @@ fn main() -> anyhow::Result<()> {
                 other => run.out.emit(&json!({"ev": "unknown", "t": other})),
             }
             run.sizes(after_insert);
+            // code -> spec (TieredTrace.tla): the state of the real engine after this step
+            {
+                let hr: Vec<bool> = (1..=ni).map(|i| run.eng.hot_tier().exists(i)).collect();
+                let vr: Vec<u64> = (1..=ni)
+                    .map(|i| run.eng.cold_tier().current_coherence_token(i).map(|t| t.version).unwrap_or(0))
+                    .collect();
+                // document-cache membership per id, observed without touching recency (single-arm strategies: the arm itself)
+                let lr: Vec<bool> = (1..=ni).map(|i| run.strat.main.peek_cached(i).is_some()).collect();
+                run.out.emit(&json!({"ev": "mstate", "t": st["t"], "hr": hr, "vr": vr, "lr": lr,
+                                     "arms": run.strat.arms.len(), "op": st}));
+            }
         }
         // closing sweep: every read flavour for every id, then a forced drain and the same sweep again
         for round in 0..2 {
